@@ -144,6 +144,101 @@ func TestVerifC15(t *testing.T) {
 	if verifrt.WantCheck("C15.decode") {
 		c15Decode(t)
 	}
+	if verifrt.WantCheck("C15.shared") {
+		c15Shared(t)
+	}
+}
+
+// c15Shared: one StackCounter incremented from many call stacks of different
+// depths, in turn: every stack keeps hitting its own counter.
+func c15Shared(t *testing.T) {
+	const check = "C15.shared"
+	res := verifrt.NewResult(check)
+	res.Rule = "one StackCounter (depth 4..40) incremented 3 times, in rotating order, from each of 12-40 call programs whose stacks are shorter than, equal to and longer than the counter's depth (the harness records the same stack with runtime.Callers). Oracle: the counter holds exactly one entry per distinct recorded stack (the innermost depth frames), each with the value 3 x the number of programs recording that stack, and never two entries for one stack. distinct = (case, stack) pairs; non-trivial = cases with stacks on both sides of the depth"
+	n := verifrt.Scale(300, 12000)
+	for i := 0; i < n; i++ {
+		if !verifrt.WantCase(check, i) {
+			continue
+		}
+		rnd := verifrt.NewRand(verifrt.Seed(), fmt.Sprintf("%s/%d", check, i))
+		depth := verifrt.Pick(rnd, []int{4, 8, 12, 16, 24, 40})
+		k := 12 + rnd.Intn(29)
+		progs := make([][]byte, k)
+		for j := range progs {
+			// (short programs: with the harness's own frames their stacks lie around the depth)
+			progs[j] = rnd.Bytes(rnd.Intn(2 * depth))
+		}
+		sc := &StackCounter{name: "shared/" + fmt.Sprint(i), depth: depth, file: &file{}}
+		want := map[string]uint64{}
+		shorter, longer := false, false
+		var cur string
+		leaf := func() {
+			p := make([]uintptr, depth+8)
+			m := runtime.Callers(1, p) // this closure is the caller of Inc
+			if m > depth {
+				m = depth
+				longer = true
+			} else if m < depth {
+				shorter = true
+			}
+			cur = fmt.Sprint(p[1:m])
+			sc.Inc()
+		}
+		replay := verifrt.CaseReplay(i, map[string]any{"depth": depth, "programs": k})
+		pv, stack := vfGuarded(func() {
+			for rep := 0; rep < 3; rep++ {
+				for j := range progs {
+					c15Run(progs[(j+rep*7)%k], 0, leaf)
+					want[cur]++
+				}
+			}
+		})
+		res.Eval()
+		if pv != nil {
+			res.Violate("inc-panic:"+vfTopFrame(stack), fmt.Sprintf("StackCounter.Inc panicked: %v\n%.1000s", pv, stack), replay)
+			continue
+		}
+		got := map[string]uint64{}
+		dup := false
+		for _, st := range sc.stacks {
+			key := "[]"
+			if len(st.pcs) > 0 {
+				key = fmt.Sprint(st.pcs[1:])
+			}
+			if _, ok := got[key]; ok {
+				dup = true
+			}
+			got[key] += counterStateBits(st.counter.state.bits.Load()).extra()
+		}
+		if shorter && longer {
+			res.Hit("stacks-on-both-sides-of-the-depth")
+		}
+		for key := range want {
+			if shorter && longer {
+				res.Distinct(fmt.Sprintf("%d/%s", i, key))
+			}
+		}
+		switch {
+		case dup:
+			res.Violate("same-stack-two-counters", fmt.Sprintf("depth %d, %d programs: the stack counter holds two entries for one recorded stack", depth, k), replay)
+		case len(got) != len(want):
+			res.Violate("same-stack-other-counter", fmt.Sprintf("depth %d, %d programs recording %d distinct stacks, each incremented 3 times in turn: the stack counter holds %d entries", depth, k, len(want), len(got)), replay)
+		default:
+			for key, v := range want {
+				if got[key] != v {
+					res.Violate("same-stack-other-counter", fmt.Sprintf("depth %d: a stack incremented %d times has a counter of %d", depth, v, got[key]), replay)
+					break
+				}
+			}
+		}
+		if i < 2 {
+			res.Sample(map[string]any{"case": i, "depth": depth, "programs": k, "distinct_stacks": len(want)})
+		}
+	}
+	res.Require("stacks-on-both-sides-of-the-depth")
+	if err := res.Write(); err != nil {
+		t.Fatal(err)
+	}
 }
 
 func c15Stacks(t *testing.T) {
